@@ -1,29 +1,45 @@
 #!/usr/bin/env python3
 """C22 - Malformed input produces a diagnostic, never a crash.
 
-Bounded-exhaustive mutation enumeration (lib/mutenum.py), every member linked by the real wild:
+Bounded-exhaustive mutation enumeration (lib/mutenum.py); every member is linked by the real wild.
 
-  binary   4 seeds of ~2 KiB whose every structural field has a known file offset
-           (object: elfgen; shared object: GNU ld once + elfread; regular and thin archive: written
-           by hand) x { every single-field mutation over the stated value set
-           {0, 1, old-1, old+1, 0x7f, 0x80, all-ones, file size, file size+1, sign bit, every section
-           / symbol index for index fields, boundary values for offsets and sizes, all 256 values of
-           1-byte fields (thorough)} ; every truncation length 0..len-1 ; every pair from a
-           (section-header field x symbol/rela field) shortlist over a 7-value set }.
-           Linked as `seed.o start.o`, `main.o seed.so`, `main.o seed.a` (main references into it).
-  text     linker script (-T), version script, dynamic list / export list, response file: every
-           token string (tokens joined by one space) up to length 3 (quick; plus the structured
-           subset of length 4) / 4 (thorough; plus the structured subset of length 5) over a
-           14..17-token alphabet, given to a link of one trivial object.
+  binary   4 seeds of <= 2 KiB whose every structural field has a known file offset (object: elfgen
+           - symtab, rela, COMDAT group, merge strings, hand-assembled .eh_frame CIE+FDE with a
+           relocation, .note.gnu.property, TLS, a common symbol; shared object: GNU ld once, fields
+           located with elfread - ELF header, section headers, program headers, dynamic entries,
+           dynsym, versym, verdef/verdaux, hash headers; regular and thin archive: written by hand -
+           every ar header field, symbol-table count/offsets, long-name terminators) x
+           { every single-field mutation over {0, 1, old-1, old+1, 0x7f, 0x80, all-ones, file size,
+             file size+1, sign bit} + per field kind: every section / symbol index and the first
+             invalid one, offset/size boundary and wrap-around values, every known sh_type / r_type /
+             st_info nibble / flag bit, all 256 values of 1-byte fields (thorough), ASCII spellings
+             for ar fields ; every truncation length 0..len-1 ; (thorough) every pair from a
+             (10 section-header fields x ~10 symbol/rela/dynamic fields) shortlist over 7 values }.
+           Linked as `seed.o start.o`, `main.o seed.so`, `main.o seed.a` (the other object refers
+           into the mutated file); thorough: the object seed's quick set again with
+           `-pie --no-gc-sections` and with `-r`.
+  text     linker script (-T, and as an implicit input), version script, dynamic list / export
+           list (one parser; also --export-dynamic-symbol-list and --export-dynamic-symbol=<text>),
+           response file (@file; a token `@self` = the file itself): every string of tokens joined
+           by one space over a 14..17-token alphabet, up to length 3 (quick; + the structured subset
+           of length 4: first token in 2 openers, last token in 2 closers) / 4 (thorough; + the same
+           structured subset of length 5), plus every string up to length 2 / 3 inside well-formed
+           frames (`SECTIONS { .. }`, `V1 { .. };` ...). A string containing a shorter string that
+           already panicked / crashed / hung is dominated and not run (counted).
   args     every list of <= 2 (quick: pairs over the first 30 entries) / 3 (thorough: triples over
-           the first 24 entries) spellings from the option alphabet, before and after one trivial
-           object.
+           the first 24 entries, after the object only) spellings from a 68-entry alphabet of
+           options with no / empty / garbage / huge / negative values, before and after one trivial
+           object; spellings with an empty word and --help/--version/-v run as real processes.
 
-Oracle (only what the property says): the link terminates within 20 s with either success or a
-non-empty diagnostic and failure status; never a panic, a death by signal, or a hang.
-Links run in wild's in-process server (which catches unwinds); every distinct panic site / crash
-class / hang class is then confirmed by ONE real `wild` process run on the same files before it is
-reported, and the key of a panic is its source location `panic:<file>:<line>`.
+Oracle (only what the property says): the link terminates with either success or a non-empty
+diagnostic and failure status; never a panic, a death by signal, or a hang.
+Links run in wild's in-process server (it catches unwinds; the panic location is read from the
+server's stderr); then every distinct class - panic site `panic:<file>:<line>`, crash
+`signal:<signo>:<seed>:<field class>`, hang `hang:<seed>:<field class>` (text: + the minimal token
+string) - is confirmed by a real `wild` process on the same files before it is reported. A server
+verdict that a real process does not reproduce is listed in the evidence and not reported.
+Members are run in a fixed priority order under a wall-clock budget; what the budget cut is listed
+under `capped` and then `exhaustive` is false.
 """
 import json
 import multiprocessing
@@ -38,7 +54,7 @@ import vlib
 import mutenum as M
 
 CTX = {}          # filled before the worker pool forks
-QUICK_BUDGET = 40
+QUICK_BUDGET = 33
 THOROUGH_BUDGET = 12.5 * 60
 ARG_CORE_Q, ARG_CORE_T = 30, 24
 # extra link modes of the object seed (thorough)
@@ -478,15 +494,18 @@ def main():
                         [("bin", name, "pairs", i, ()) for i in range(len(muts[name, "pairs"]))] +
                         [("bin", name, "param", i, ())
                          for i in range(len(muts.get((name, "param"), ())))])
+                small_g = [g for g in M.GRAMMARS if g != "linker-script"]
+                run("txt=4:" + ",".join(small_g),
+                    [it for g in small_g for it in text_items(g, "main", 4)])
                 run("args=3", [("arg", (i, j, k), "after") for i in range(core)
                                for j in range(core) for k in range(core)])
                 for mode in OBJECT_MODES:
                     run("bin:object:single:" + mode[0],
                         [("bin", "object", "single-q", i, mode)
                          for i in range(len(muts["object", "single-q"]))])
-                run("txt=4", [it for g in M.GRAMMARS for it in text_items(g, "main", 4)])
+                run("txt=4:linker-script", text_items("linker-script", "main", 4))
                 run("txt=5:structured",
-                    [it for g in M.GRAMMARS
+                    [it for g in small_g + ["linker-script"]
                      for it in text_items(g, "main", 5, subset=M.structured(g, 5, 2, 2))])
             else:
                 run("txt=4:structured",
@@ -509,7 +528,7 @@ def main():
         # (a mutated value >= 2^24) can legitimately need time proportional to it (observed: a
         # 2 GiB .tbss with -r takes about a minute and then finishes): such a candidate is not
         # judged at all; it is listed in the evidence.
-        hang_short = min(60.0, max(float(M.TIMEOUT), 100 * tb))
+        hang_short = min(60.0 if T else 16.0, max(float(M.TIMEOUT), 100 * tb))
         confirmed_sites, unconfirmed, deferred, folded = {}, {}, {}, {}
         nproc = [0]
         import itertools
@@ -660,7 +679,8 @@ def main():
         "alloc-limit and not reported" %
         (M.AS_LIMIT >> 30, M.FSIZE_LIMIT >> 30, M.ALLOC_REPORT_MIN / 2.0 ** 30),
         "hang = no result within %d s in the server and then again as a real process within "
-        "max(%d s, 100 x the wall time of a trivial link measured at that moment; at most 60 s); "
+        "max(%d s, 100 x the wall time of a trivial link measured at that moment; at most 60 s, "
+        "quick tier 16 s); "
         "when the mutated value is >= 2^24 (a declared size/count/address that can legitimately "
         "cost proportional time) a time-out is not judged (listed under "
         "slow_or_hang_not_judged_huge_declared_value)" % (M.TIMEOUT, M.TIMEOUT),
